@@ -511,7 +511,9 @@ func fieldPathOfLoad(v ssa.Value) string {
 
 // loadField: for a load of a struct field, "Type.Field" with Type the struct
 // type that directly contains the field (innermost), else "".
-func loadField(v ssa.Value) string {
+func loadField(v ssa.Value) string { return loadFieldD(v, 2) }
+
+func loadFieldD(v ssa.Value, depth int) string {
 	v = stripConv(v)
 	if u, ok := v.(*ssa.UnOp); ok && u.Op == token.MUL {
 		return lastField(u.X)
@@ -519,7 +521,81 @@ func loadField(v ssa.Value) string {
 	if f, ok := v.(*ssa.Field); ok {
 		return typeName(f.X.Type()) + "." + fieldName(f.X.Type(), f.Field)
 	}
+	// a parameter of an unexported module helper that receives the field's value at every call
+	if prm, ok := v.(*ssa.Parameter); ok && depth > 0 {
+		g := prm.Parent()
+		if g == nil || g.Parent() != nil || !inModule(g) || g.Object() == nil || g.Object().Exported() {
+			return ""
+		}
+		idx := -1
+		for i, pr := range g.Params {
+			if pr == prm {
+				idx = i
+			}
+		}
+		sites := callSitesOf(g)
+		if idx < 0 || len(sites) == 0 {
+			return ""
+		}
+		out := ""
+		for i, cs := range sites {
+			if idx >= len(cs.Common().Args) {
+				return ""
+			}
+			lf := loadFieldD(cs.Common().Args[idx], depth-1)
+			if lf == "" || (i > 0 && lf != out) {
+				return ""
+			}
+			out = lf
+		}
+		return out
+	}
 	return ""
+}
+
+// forwardTarget: fn does nothing but hand (loads of fields of) its receiver and its parameters to one module
+// function and return that function's results; rules anchored on fn then look at the callee.
+func forwardTarget(fn *ssa.Function) *ssa.Function {
+	if fn == nil || len(fn.Blocks) != 1 {
+		return nil
+	}
+	var call *ssa.Call
+	for _, in := range fn.Blocks[0].Instrs {
+		switch x := in.(type) {
+		case *ssa.FieldAddr, *ssa.UnOp, *ssa.Extract, *ssa.DebugRef, *ssa.Field:
+		case *ssa.Call:
+			if call != nil {
+				return nil
+			}
+			call = x
+		case *ssa.Return:
+			if call == nil {
+				return nil
+			}
+			for _, r := range x.Results {
+				ok := r == ssa.Value(call)
+				if ex, isE := r.(*ssa.Extract); isE && ex.Tuple == ssa.Value(call) {
+					ok = true
+				}
+				if !ok {
+					return nil
+				}
+			}
+		default:
+			return nil
+		}
+	}
+	if call == nil {
+		return nil
+	}
+	t := staticCallee(call)
+	if t == nil || !inModule(t) || t.Pkg != fn.Pkg || len(t.Blocks) == 0 || t == fn {
+		return nil
+	}
+	if t.Object() != nil && t.Object().Exported() {
+		return nil
+	}
+	return t
 }
 
 // lastField returns "Type.Field" of the innermost FieldAddr of an address.
